@@ -64,3 +64,24 @@ def run(case, ctx):
             "shape": (len(set(n[0] for n in case["seq"]["notes"])), case["style"], case["dne"], min(removed, 2),
                       "default" if case["values"] is None else len(case["values"])),
             "observed": {"before": len(before["notes"]), "after": len(after["notes"])}}
+
+
+def _corpus_body(rng, k):
+    from vmon import corpus
+    desc, w = corpus.window(rng, min_len=48, max_len=500)
+    if rng.random() < 0.6:
+        w.quantise()
+    nv = rng.choice(VALUES)
+    dne = rng.random() < 0.5
+    desc.update(values=nv, dne=dne)
+    before = obs(w)
+    if nv is None:
+        w.quantise_note_lengths(do_not_extend=dne)
+    else:
+        w.quantise_note_lengths(list(nv), do_not_extend=dne)
+    return desc, obs(w)["notes"] != before["notes"]
+
+
+def phases(tier):
+    from vmon import corpus
+    return [("corpus", corpus.phase(300, 20000, _corpus_body))]
